@@ -73,7 +73,7 @@ def check(run, driver):
     run.case("integer-dtype", ["joint", Ci.tolist()], True)
     if abs(gj - wj) > 1e-9:
         run.prop_fail("joint entropy of an integer-typed matrix differs from that of the same numbers as floats", {"C": Ci}, {"clause": "joint", "dtype": "integer"}, {"impl": gj, "float": wj})
-    vecs = [np.array([5, 0.5, 100.0]), np.array([1e-30, 5.0]), np.array([0.0, 5.0]), np.array([0.0, 0.0]), np.array([500.0, 1e-12, 0.0, 3.0]),
+    vecs = [np.zeros((2, 2)), np.zeros((3, 1)), np.array([5, 0.5, 100.0]), np.array([1e-30, 5.0]), np.array([0.0, 5.0]), np.array([0.0, 0.0]), np.array([500.0, 1e-12, 0.0, 3.0]),
             np.array([[1.0, 200.0], [0.0, 1e-8]]), np.array([[7.0]]), np.array([2.0]), np.array([[1.0, 50.0, 400.0]]), np.array([[1.0], [50.0], [400.0]])]
     for _ in range(60 if thorough else 20):
         shape = [(int(rng.integers(1, 6)),), (1, int(rng.integers(1, 5))), (int(rng.integers(1, 5)), 1), (int(rng.integers(1, 4)), int(rng.integers(1, 4)))][int(rng.integers(0, 4))]
@@ -89,11 +89,11 @@ def check(run, driver):
         pos = {float(x) for x in flat_in if x > 0}
         case = {"rates": v}
         run.case("vector", [v.shape, v.tolist()], len(pos) >= 2, sample={"rates": v, "impl": out})
+        # shapes: the routine squeezes its result ((n,1)/(1,n) come back as (n,), an all-zero input -- no series term at all --
+        # even loses an axis); values are matched element-wise when the sizes agree, by broadcasting otherwise
         try:
-            flat_out = np.broadcast_to(out, v.shape).reshape(-1) if out.size == 1 else out.reshape(-1)
+            flat_out = out.reshape(-1) if out.size == flat_in.size else np.broadcast_to(out, v.shape).reshape(-1)
         except ValueError:
-            run.prop_fail("result cannot be matched element-wise with the input", case, {"clause": "shape"}, [out.shape, v.shape]); continue
-        if flat_out.size != flat_in.size:
             run.prop_fail("result cannot be matched element-wise with the input", case, {"clause": "shape"}, [out.shape, v.shape]); continue
         for j, (l, o) in enumerate(zip(flat_in, flat_out)):
             s = scalar(l)
@@ -107,7 +107,7 @@ def check(run, driver):
             run.corr_fail("vector-model", v, r, None, "driver error"); continue
         run.traces += 1
         out = np.asarray(poisson_entropy(v.copy()), dtype=float)
-        flat_out = np.broadcast_to(out, v.shape).reshape(-1) if out.size == 1 else out.reshape(-1)
+        flat_out = out.reshape(-1) if out.size == v.size else np.broadcast_to(out, v.shape).reshape(-1)
         mod = [b2f(x["b"]) for x in r["ok"]["vec"]]
         if len(mod) != flat_out.size or any(abs(a - b) > 1e-9 for a, b in zip(mod, flat_out)):
             run.corr_fail("vector-model", {"rates": v}, mod, flat_out)
